@@ -135,6 +135,12 @@ Theorem C08_no_retry_after_cancel : forall max s l s' c,
 Proof. exact retry_no_new_attempt_after_cancel. Qed.
 Print Assumptions C08_no_retry_after_cancel.
 
+Theorem C08_no_retry_after_cancel_zero_interval : forall zero max s l s' c,
+  r_ctx s = Some c -> rstepz zero true max s l = Some s' ->
+  r_attempt s' = r_attempt s /\ r_net s' = r_net s.
+Proof. exact retry_no_new_attempt_after_cancel_z. Qed.
+Print Assumptions C08_no_retry_after_cancel_zero_interval.
+
 Theorem C08_retry_sleep_interruptible : forall max s c,
   r_phase s = PSleep -> r_ctx s = Some c ->
   exists s', rstep true max s RSleepCtx = Some s' /\ r_phase s' = PRet (Some (ECause c)) /\
